@@ -40,7 +40,42 @@ def register(R, P):
     R.macro("GWF", ["g"], "all(implies(has_edge(g, a, b), has_node(g, a) and has_node(g, b) and is_item(b)) for a in every('node') for b in every('node'))")
     # reference graph: edges lead from a reference to an element that read it, endpoints are nodes of the graph
     R.macro("RGWF", ["g"], "all(implies(has_edge(g, a, b), has_node(g, a) and has_node(g, b) and not is_nd(a) and is_nd(b)) for a in every('rnode') for b in every('rnode'))")
+    def _setting_funs(E, st):
+        A = st.H("f:allow_none", Val); Pa = st.H("f:parent", Ref)
+        F = z3.Function("setting_of", A.sort(), Pa.sort(), Ref, Val)
+        Hs = z3.Function("has_setting", A.sort(), Pa.sort(), Ref, B)
+        return A, Pa, F, Hs
+
+    def _unfold(E, A, Pa, F, Hs, x):
+        """one-step unfolding of the recursive definitions at x (and at x's parent)"""
+        seen = getattr(E, "_unf_seen", None)
+        if seen is None: seen = E._unf_seen = set()
+        for y in (x, Pa[x]):
+            k = (A.get_id(), Pa.get_id(), y.get_id())
+            if k in seen: continue
+            seen.add(k)
+            E.axioms.append(F(A, Pa, y) == z3.If(A[y] != VNONE, A[y], F(A, Pa, Pa[y])))
+            E.axioms.append(Hs(A, Pa, y) == z3.Or(A[y] != VNONE, z3.And(Pa[y] != NULL, Hs(A, Pa, Pa[y]))))
+
+    @R.specfun("setting_of")
+    def setting_of(ev, x):
+        """the allow_none setting in force for x: its own if not None, else its parent's (recursively)"""
+        A, Pa, F, Hs = _setting_funs(ev.eng, ev.st); _unfold(ev.eng, A, Pa, F, Hs, x.v)
+        return SV(F(A, Pa, x.v), VAL)
+
+    @R.specfun("has_setting")
+    def has_setting(ev, x):
+        A, Pa, F, Hs = _setting_funs(ev.eng, ev.st); _unfold(ev.eng, A, Pa, F, Hs, x.v)
+        return SV(Hs(A, Pa, x.v), BOOL)
+
+    @R.specfun("allow_none_of")
+    def allow_none_of(ev, x):
+        s = setting_of(ev, x)
+        return SV(ev.eng.truth(s, ev.st), BOOL)
+
     R.macro("HELD", ["g"], HELD)
+    # INPUT-KEEP (DESIGN C06): a value assigned by the user was computed from nothing: its element has no in-edge
+    R.macro("INPUT_BARE", ["g"], "all(implies(has_edge(g, a, b), key(b) not in obj(b).input_keys) for a in every('node') for b in every('node'))")
     R.macro("REFS_OK", ["g", "refs"], "all(has_node(g, refs[j]) and not is_nd(refs[j]) for j in range(len(refs)))"
             " and all(implies(j1 != j2, refs[j1] != refs[j2]) for j1 in range(len(refs)) for j2 in range(len(refs)))")
     R.macro("SEP", [], SEP)
@@ -209,3 +244,179 @@ def register3(R, P):
         modifies=["content(self.tracegraph)", "content(self.refgraph)", "every_content('dict[key,val]')", "every_content('set[key]')"],
         alloc=True)
     P["_model"]["graph"] += ["TraceManager.clear_with_descs"]
+
+
+def register4(R, P):
+    PRE = ["GWF(self.model.tracegraph)", "RGWF(self.model.refgraph)", "HELD(self.model.tracegraph)", "SEP()",
+           "all(c.data is not d.input_keys for c in every('CellsImpl') for d in every('CellsImpl'))"]
+    MOD = ["content(self.model.tracegraph)", "content(self.model.refgraph)", "every_content('dict[key,val]')", "every_content('set[key]')"]
+    DISCARD = ("all(implies(is_item(n), (key(n) in obj(n).data) == (old(key(n) in obj(n).data) and not (%s and n in old(reach(self.model.tracegraph, item(self, key))))))"
+               " for n in every('node'))")
+    KEPT = "all(implies(is_item(n) and key(n) in obj(n).data, obj(n).data[key(n)] == old(obj(n).data[key(n)])) for n in every('node'))"
+    COND_CLEAR = "old(key in self.data) and old(has_node(self.model.tracegraph, item(self, key))) and (clear_input or old(key not in self.input_keys))"
+    R.contract(C + "::CellsImpl.clear_value_at",
+        params={"self": "CellsImpl", "key": "key", "clear_input": "bool"},
+        requires=PRE + ["all(implies(k in self.input_keys, k in self.data) for k in every('key'))"],
+        ensures=[
+            # C06: inputs survive unless clear_input; otherwise exactly the element and its dependents go
+            "EXACT:: " + DISCARD % ("(" + COND_CLEAR + ")"),
+            "OTHERS-KEPT:: " + KEPT,
+            "INPUT-KEPT:: implies(not clear_input and old(key in self.input_keys), key in self.data and key in self.input_keys)",
+            "INPUT-FLAGS:: all(implies(is_item(n), (key(n) in obj(n).input_keys) == (old(key(n) in obj(n).input_keys) and not ((%s) and n in old(reach(self.model.tracegraph, item(self, key))))))"
+            " for n in every('node'))" % COND_CLEAR,
+            "NODES:: all(has_node(self.model.tracegraph, n) == (old(has_node(self.model.tracegraph, n)) and not ((%s) and n in old(reach(self.model.tracegraph, item(self, key))))) for n in every('node'))" % COND_CLEAR,
+            "EDGES:: all(has_edge(self.model.tracegraph, a, b) == (old(has_edge(self.model.tracegraph, a, b)) and has_node(self.model.tracegraph, a) and has_node(self.model.tracegraph, b))"
+            " for a in every('node') for b in every('node'))",
+            "HELD:: HELD(self.model.tracegraph)", "GWF:: GWF(self.model.tracegraph)", "RGWF:: RGWF(self.model.refgraph)",
+        ],
+        modifies=MOD, alloc=True)
+
+    R.contract(C + "::CellsImpl._store_value",
+        params={"self": "CellsImpl", "key": "key", "value": "val"}, returns="val",
+        requires=["has_setting(self)"],
+        ensures=[
+            "RESULT:: result == value",
+            "STORED:: key in self.data and self.data[key] == value",
+            "OTHERS:: all(implies(k != key, (k in self.data) == old(k in self.data) and self.data[k] == old(self.data[k])) for k in every('key'))",
+            "NONE-ALLOWED:: implies(value is None, allow_none_of(self))",
+        ],
+        raises={"NoneReturnedError": [
+            # C05/C11: a None that is not allowed is rejected and nothing is stored
+            "REJECTED:: value is None and not allow_none_of(self)",
+            "UNCHANGED:: unchanged(self.data)",
+        ]},
+        modifies=["content(self.data)"], alloc=True)
+
+    R.contract("modelx/core/base.py::Impl.get_property",
+        params={"self": "Impl", "name": "str"}, returns="val",
+        static={"name": "allow_none"},
+        requires=["has_setting(self)"],
+        ensures=["RESULT:: result == setting_of(self)", "NOT-NONE:: result is not None"],
+        note="termination (the chain ends at the model, whose allow_none is never None) is assumed via has_setting",
+        modifies=[])
+    P["_model"]["cells"] = ["CellsImpl.clear_value_at", "CellsImpl._store_value", "Impl.get_property"]
+
+
+def register5(R, P):
+    R.contract("modelx/core/node.py::key_to_node",
+        params={"obj": "NodeObj", "key": "key"}, returns="node",
+        ensures=["result == item(obj, key)"], modifies=[])
+    R.contract("modelx/core/node.py::tuplize_key",
+        params={"obj": "NodeObj", "key": "key", "remove_extra": "bool"}, returns="key",
+        static={"remove_extra": False},
+        note="keys are modelled already tuplised (sort Key); the non-tuple branch is covered by the bounded driver of C01",
+        trusted=True, pure=True, ensures=["result == key"])
+    P["_model"]["cells"] += ["key_to_node"]
+
+
+def register6(R, P):
+    # system-wide shape: one executor, its call stack is the one the System exposes; every node object belongs to it
+    R.macro("SYSINV", ["s"], "s.executor.callstack is s.callstack and s.callstack.executor is s.executor"
+                             " and all(c.system is s for c in every('NodeObj'))"
+                             " and all(c.model.tracegraph is not c.model.refgraph for c in every('NodeObj'))")
+    PRE = ["GWF(self.model.tracegraph)", "RGWF(self.model.refgraph)", "HELD(self.model.tracegraph)", "SEP()",
+           "all(c.data is not d.input_keys for c in every('CellsImpl') for d in every('CellsImpl'))",
+           "all(implies(k in self.input_keys, k in self.data) for k in every('key'))"]
+    EXEC_PRE = ["SYSINV(self.system)", "WF(self.system.callstack)",
+                "implies(not self.system.executor.is_executing, IDLE(self.system.executor))",
+                "implies(len(self.system.callstack) == 0, not self.system.executor.is_executing)"]
+    MOD_ALL = ["every_content('dict[key,val]')", "every_content('set[key]')", "every_content('graph')", "every_content('graph[rnode]')",
+               "content(self.system.executor.refstack)", "content(self.system.executor.rolledback)", "self.system.executor.ghost_runs",
+               "content(self.system.callstack)", "content(self.system.callstack.idxstack)", "self.system.callstack.counter",
+               "self.system.executor.excinfo", "self.system.executor.errorstack", "self.system.executor.is_executing",
+               "self.system.executor.buffer"]
+
+    R.contract(C + "::CellsImpl.get_value_from_key",
+        params={"self": "CellsImpl", "key": "key"}, returns="val",
+        requires=EXEC_PRE + ["GWF(self.model.tracegraph)", "RGWF(self.model.refgraph)"],
+        ensures=[
+            "WF:: WF(self.system.callstack)", "IDLE:: implies(not self.system.executor.is_executing, IDLE(self.system.executor))",
+            "EXECUTING:: self.system.executor.is_executing == old(self.system.executor.is_executing)",
+            "STACK:: unchanged(self.system.callstack)",
+            "HIT-VALUE:: implies(old(self.is_cached and key in self.data), result == old(self.data[key]))",
+            "DATA-MONO:: all(implies(old(k in c.data), k in c.data and c.data[k] == old(c.data[k])) for c in every('NodeObj') for k in every('key'))",
+            "INPUTS:: all(unchanged(c.input_keys) for c in every('CellsImpl'))",
+            "GWF:: GWF(self.model.tracegraph)", "RGWF:: RGWF(self.model.refgraph)",
+        ],
+        raises={"*": [
+            "WF:: WF(self.system.callstack)", "IDLE:: implies(not self.system.executor.is_executing, IDLE(self.system.executor))",
+            "EXECUTING:: self.system.executor.is_executing == old(self.system.executor.is_executing)",
+            "STACK:: unchanged(self.system.callstack)",
+            "DATA-MONO:: all(implies(old(k in c.data), k in c.data and c.data[k] == old(c.data[k])) for c in every('NodeObj') for k in every('key'))",
+            "INPUTS:: all(unchanged(c.input_keys) for c in every('CellsImpl'))",
+            "GWF:: GWF(self.model.tracegraph)", "RGWF:: RGWF(self.model.refgraph)",
+        ]},
+        modifies=MOD_ALL, alloc=True)
+
+    NODE = "item(self, key)"
+    DEP = "(old(has_node(self.model.tracegraph, %s)) and n in old(reach(self.model.tracegraph, %s)))" % (NODE, NODE)
+    R.contract(C + "::CellsImpl.set_value_from_key",
+        params={"self": "CellsImpl", "key": "key", "value": "val"},
+        requires=PRE + EXEC_PRE + ["has_setting(self)", "self.model.system is self.system",
+                                   # the recalculation branch is verified for graphs holding only elements of this model
+                                   "all(c.model is self.model for c in every('NodeObj'))"],
+        ensures=[
+            # C06: the assigned value is held, flagged as input ...
+            "ASSIGNED:: key in self.data and self.data[key] == value",
+            "INPUT-FLAG:: implies(old(len(self.system.callstack)) == 0, key in self.input_keys)",
+            # ... outside a formula with the recalculation option off: precisely the dependents are discarded,
+            "EXACT:: implies(old(len(self.system.callstack)) == 0 and not self.system._recalc_dependents,"
+            " all(implies(is_item(n) and n != %s, (key(n) in obj(n).data) == (old(key(n) in obj(n).data) and not %s)) for n in every('node')))" % (NODE, DEP),
+            # every other held value stays and nothing ran
+            "OTHERS-KEPT:: implies(not self.system._recalc_dependents,"
+            " all(implies(is_item(n) and n != %s and key(n) in obj(n).data, obj(n).data[key(n)] == old(obj(n).data[key(n)])) for n in every('node')))" % NODE,
+            "NO-RUN:: implies(not self.system._recalc_dependents, self.system.executor.ghost_runs == old(self.system.executor.ghost_runs))",
+            # the element is re-added bare: an input depends on nothing and nothing computed depends on it yet
+            "BARE:: implies(old(len(self.system.callstack)) == 0 and not self.system._recalc_dependents,"
+            " has_node(self.model.tracegraph, %s) and not any(has_edge(self.model.tracegraph, a, %s) or has_edge(self.model.tracegraph, %s, a) for a in every('node')))" % (NODE, NODE, NODE),
+            "HELD:: implies(not self.system._recalc_dependents, HELD(self.model.tracegraph))",
+            "GWF:: GWF(self.model.tracegraph)", "RGWF:: RGWF(self.model.refgraph)",
+            "WF:: WF(self.system.callstack)",
+        ],
+        raises={
+            # C11: an unassignable value is rejected before anything is discarded
+            "NoneReturnedError": ["REJECTED:: value is None and not allow_none_of(self)",
+                                  "UNCHANGED:: all(unchanged(c.data, c.input_keys) for c in every('CellsImpl')) and unchanged(self.model.tracegraph, self.model.refgraph)"],
+            # assignment to another cells from inside a formula
+            "KeyError": ["INSIDE:: old(len(self.system.callstack)) > 0 and old(self.system.callstack[-1]) != %s" % NODE,
+                         "UNCHANGED:: all(unchanged(c.data, c.input_keys) for c in every('CellsImpl')) and unchanged(self.model.tracegraph, self.model.refgraph)"],
+            # recalculation of a dependent failed (recalc option on): the assignment itself stays
+            "*": ["RECALC:: self.system._recalc_dependents and old(len(self.system.callstack)) == 0",
+                  "ASSIGNED:: key in self.data and self.data[key] == value and key in self.input_keys"],
+        },
+        loops={0: {"inv": [
+            "key in self.data and self.data[key] == value and key in self.input_keys",
+            "WF(self.system.callstack) and len(self.system.callstack) == 0 and IDLE(self.system.executor) and not self.system.executor.is_executing",
+            "GWF(self.model.tracegraph)", "RGWF(self.model.refgraph)", "self.system._recalc_dependents",
+        ], "modifies": MOD_ALL}},
+        modifies=MOD_ALL, alloc=True)
+
+    R.contract(C + "::CellsImpl.clear_all_values",
+        params={"self": "CellsImpl", "clear_input": "bool"},
+        requires=PRE + ["INPUT_BARE(self.model.tracegraph)",
+                        # G1, other half (the library's own check_sanity): every held element of this cells is a node
+                        "all(implies(k in self.data, has_node(self.model.tracegraph, item(self, k))) for k in every('key'))"],
+        ensures=[
+            # C06: inputs survive clear(); every computed value of this cells is gone
+            "INPUTS-KEPT:: implies(not clear_input, all(implies(old(k in self.input_keys), k in self.data and k in self.input_keys and self.data[k] == old(self.data[k])) for k in every('key')))",
+            "COMPUTED-GONE:: all(implies(k in self.data, old(k in self.data) and not clear_input and k in self.input_keys) for k in every('key'))",
+            "OTHERS-KEPT:: all(implies(is_item(n) and key(n) in obj(n).data, old(key(n) in obj(n).data) and obj(n).data[key(n)] == old(obj(n).data[key(n)])) for n in every('node'))",
+            "HELD:: HELD(self.model.tracegraph)", "GWF:: GWF(self.model.tracegraph)", "RGWF:: RGWF(self.model.refgraph)",
+        ],
+        loops={0: {"inv": [
+            "all(implies(is_item(n) and key(n) in obj(n).data, old(key(n) in obj(n).data) and obj(n).data[key(n)] == old(obj(n).data[key(n)])) for n in every('node'))",
+            "all(implies(old(k in self.input_keys) and not clear_input, k in self.data and k in self.input_keys) for k in every('key'))",
+            "all(implies(k in self.input_keys, old(k in self.input_keys)) for k in every('key'))",
+            "all(implies(j < _i and _s[j] in self.data, not clear_input and _s[j] in self.input_keys) for j in range(len(_s)))",
+            "all(implies(k in self.data, old(k in self.data)) for k in every('key'))",
+            "HELD(self.model.tracegraph) and GWF(self.model.tracegraph) and RGWF(self.model.refgraph) and SEP()",
+            "all(c.data is not d.input_keys for c in every('CellsImpl') for d in every('CellsImpl'))",
+            "all(implies(k in self.input_keys, k in self.data) for k in every('key'))",
+            "INPUT_BARE(self.model.tracegraph)",
+            "all(implies(k in self.data, has_node(self.model.tracegraph, item(self, k))) for k in every('key'))",
+            "all(implies(is_item(n) and key(n) in obj(n).input_keys, old(key(n) in obj(n).input_keys)) for n in every('node'))",
+            "all(implies(has_edge(self.model.tracegraph, a, b), old(has_edge(self.model.tracegraph, a, b))) for a in every('node') for b in every('node'))",
+        ], "modifies": ["content(self.model.tracegraph)", "content(self.model.refgraph)", "every_content('dict[key,val]')", "every_content('set[key]')"]}},
+        modifies=["content(self.model.tracegraph)", "content(self.model.refgraph)", "every_content('dict[key,val]')", "every_content('set[key]')"],
+        alloc=True)
+    P["_model"]["cells"] += ["CellsImpl.get_value_from_key", "CellsImpl.set_value_from_key", "CellsImpl.clear_all_values"]
